@@ -4,6 +4,6 @@ P=$1; shift
 cd /repo && git status --short | grep -q . && { echo "/repo not clean"; exit 2; }
 git apply "$P" || { echo "patch does not apply"; exit 2; }
 for id in "$@"; do
-  cd /verif && timeout 1500 ./check $id quick 2>&1 | grep -E "^C[0-9]+ quick|^VIOLATION|MACHINERY|KNOWN" | head -4
+  cd /verif && timeout 1500 ./check $id quick 2>&1 | grep -E "^C[0-9]+ quick|^VIOLATION|MACHINERY" | tail -3
 done
 cd /repo && git checkout -- . && git status --short
